@@ -553,5 +553,6 @@ func init() {
 					}
 				}
 			}, func() string { return c.Repo }, c07Check)
+		c07WavePart(c)
 	})
 }
